@@ -5,6 +5,8 @@
             sub-scalars of a decomposition), reduction modulo the order, or delegation to a sibling ("all scalars ... negative")
   OUT-RBW   no coordinate of an output point is read before it was written on every path (the suite calls addition, doubling and
             normalisation in place, where a read of the output's own coordinate goes unnoticed)
+  ALIAS-RW  no coordinate of an input point is read in a later statement than a write of that coordinate of an output point
+            (single points; precomputation tables are not outputs anyone aliases)
   CONST-IN  no function of the module stores through a parameter it declares const
   (the cofactor routines epN_mul_cof are decided under C13: COF-ID, COF-PARAM, OUT-DEF; decoders, buffers and regular
   recodings of these curves under C07, C08 and C20)
@@ -24,6 +26,12 @@ EXPLANATION = (
     "these siblings today (no reduction before fixed-size recodings: recorded as an observation in DESIGN.md 10.6, not claimed). "
     "Nothing of RELIC is executed.")
 
+_NORM_OK = "default arm of the coordinate switch in the normalisation helper: p->coord is PROJC or JACOB there, the arm that copies p whole is unreachable"
+POINT_ALIAS_OK = {
+    ("ep2_norm_imp", "r", "p", "z", "ep2_copy"): _NORM_OK, ("ep3_norm_imp", "r", "p", "z", "ep3_copy"): _NORM_OK,
+    ("ep4_norm_imp", "r", "p", "z", "ep4_copy"): _NORM_OK, ("ep8_norm_imp", "r", "p", "z", "ep8_copy"): _NORM_OK,
+    ("ep2_frb", "r", "p", "*", "ep2_mul_basic"): "fallback for twists with a != 0, which no tabulated parameter set has: the loop repeats [t]P instead of iterating on the result (observation, DESIGN.md 10.4); not reachable",
+}
 FAM = re.compile(r"^ep\d_mul(_\w+)?$")
 NOT_MUL = re.compile(r"_mul_(pre|cof|tab)|_mul_pre_|_mul_fix_tab")
 
@@ -37,8 +45,9 @@ def analyse(ctx, prog, chk):
     fam = family(prog)
     ns = expsib.rule_sm_sign(ctx, prog, chk, fam, FAM)
     nr = alias.rule_out_rbw(ctx, prog, chk, lambda fn: fn.rfile.startswith("src/epx/"), re.compile(r"^ep\d+_t\b"))
+    na = alias.rule(ctx, prog, chk, lambda fn: fn.rfile.startswith("src/epx/"), POINT_ALIAS_OK, points=True)[0]
     nc = c02.rule_const_in(ctx, prog, chk, prefix=("src/epx/",))
-    return {"sign": ns, "rbw": nr, "const": nc}
+    return {"sign": ns, "rbw": nr, "const": nc, "palias": na}
 
 
 def selfcheck(ctx, prog, chk):
@@ -49,6 +58,7 @@ def run(ctx, chk):
     c = analyse(ctx, ctx.program("BASE"), chk)
     chk.floor("SM-SIGN", "scalar parameters of the multiplication siblings", c["sign"], 100)
     chk.floor("OUT-RBW", "output points of functions that also take an input point", c["rbw"], 200)
+    chk.floor("ALIAS-RW", "output/input pairs of single points", c["palias"], 200)
     chk.floor("CONST-IN", "const pointer parameters of the module", c["const"], 400)
     analyse(ctx, ctx.program("P381"), chk)
     if chk.tier == "thorough":
